@@ -231,3 +231,7 @@
 (assert (forall ((x F32)) (! (= (f32.inintrange x MinInt MaxInt) (and (f32.le (f32.ofint MinInt) x) (f32.lt x (f32.ofint 9223372036854775808)))) :pattern ((f32.inintrange x MinInt MaxInt)))))
 (assert (forall ((x F32)) (! (= (f64.isnan (f64.of32 x)) (f32.isnan x)) :pattern ((f64.of32 x)))))
 ; @section core
+(declare-fun errors.isf (Iface Iface) Bool)
+(declare-fun rd.src (Int) Int) (declare-fun dec.src (Int) Int)
+(declare-fun json.prefixok (Int) Bool) (declare-fun json.restblank (Int) Bool) (declare-fun json.isstring (Int) Bool) (declare-fun json.isnumber (Int) Bool)
+(define-fun json.text ((k Int)) Bool (and (json.prefixok k) (json.restblank k)))
